@@ -12,6 +12,6 @@ theorem kd_tree_derive (b : Nat) (x y : Bytes) (j : Nat) :
   · simp [hb, throw, throwThe, MonadExceptOf.throw]
   · simp only [hb, if_false]
     repeat (first | rfl | split)
-    all_goals simp_all
+    all_goals first | (simp_all; done) | slice_forms
 
 end Pyemv.ModRefines
